@@ -33,6 +33,14 @@ type behaviour struct {
 	Weak bool // outcome not pinned down by documentation: only totality is judged
 	Loop bool // needs a deadline
 	ECMA bool // ECMAScript only (hand-written source)
+	Ext  bool // needs the extended interpreter ("ecmascript-ext" of the standard map)
+}
+
+// ext: a hand-written script for the extended interpreter (_.match, _.cronNext, _.randstr).
+func ext(name, src, marker, kind string) behaviour {
+	b := raw(name, src, marker, kind)
+	b.Ext = true
+	return b
 }
 
 func raw(name, src, marker, kind string) behaviour {
@@ -73,6 +81,28 @@ func behaviours() []behaviour {
 		raw("out-throwing-getter", `_.out({get a() { throw new Error("MARK-GETTER"); }}); return _.bindings;`, "", "weak"),
 		raw("return-array-with-holes", `var a = []; a[5] = 1; return {a: a};`, "", "weak"),
 		raw("return-huge-number-keys", `var o = {}; for (var i = 0; i < 2000; i++) { o["k" + i] = i; } return o;`, "", "weak"),
+		// the helpers of the extended interpreter, called the wrong way
+		ext("ext-match-no-arguments", `_.match(); return _.bindings;`, "", "fail"),
+		ext("ext-match-one-argument", `_.match({"a": "?x"}); return _.bindings;`, "", "fail"),
+		ext("ext-match-bindings-not-a-map", `_.match({"a": "?x"}, {"a": 1}, 5); return _.bindings;`, "bad bindings", "fail"),
+		ext("ext-match-bindings-array", `_.match({"a": "?x"}, {"a": 1}, [1, 2]); return _.bindings;`, "bad bindings", "fail"),
+		ext("ext-match-invalid-pattern", `_.match({"?a": 1, "b": 2}, {"b": 2}, {}); return _.bindings;`, "", "fail"),
+		ext("ext-match-two-array-variables", `_.match({"l": ["?a", "?b"]}, {"l": [1, 2]}, {}); return _.bindings;`, "", "fail"),
+		ext("ext-match-unserialisable-pattern", `_.match({"f": function() {}}, {"f": 1}, {}); return _.bindings;`, "", "weak"),
+		ext("ext-match-cyclic-message", `var o = {}; o.o = o; _.match({"o": "?x"}, o, {}); return _.bindings;`, "", "fail"),
+		ext("ext-match-nan", `_.match({"n": 0/0}, {"n": 0/0}, {}); return _.bindings;`, "", "fail"),
+		ext("ext-match-undefined-bindings", `_.match({"a": "?x"}, {"a": 1}, undefined); return _.bindings;`, "", "weak"),
+		ext("ext-match-null-everything", `_.match(null, null, null); return _.bindings;`, "", "weak"),
+		ext("ext-match-result-mutated", `var r = _.match({"a": "?x"}, {"a": {"b": 1}}, {}); r[0]["?x"].b = 2; r.push(5); return {a: r.length};`, "", "weak"),
+		ext("ext-cron-not-a-string", `_.cronNext(5); return _.bindings;`, "not a string", "fail"),
+		ext("ext-cron-no-argument", `_.cronNext(); return _.bindings;`, "", "fail"),
+		ext("ext-cron-garbage", `_.cronNext("not a cron line at all"); return _.bindings;`, "", "fail"),
+		ext("ext-cron-impossible-date", `return {next: _.cronNext("0 0 31 2 *")};`, "", "weak"),
+		ext("ext-cron-far-year", `return {next: _.cronNext("* * * * * * 2099")};`, "", "weak"),
+		ext("ext-cron-huge-field", `_.cronNext("99999999999999999999 * * * *"); return _.bindings;`, "", "weak"),
+		ext("ext-cron-step-zero", `_.cronNext("*/0 * * * *"); return _.bindings;`, "", "weak"),
+		ext("ext-randstr-as-key", `var bs = {}; bs[_.randstr()] = _.randstr(); return bs;`, "", "weak"),
+		ext("ext-helpers-deleted", `delete _.match; delete _.cronNext; return _.match({}, {}, {});`, "", "fail"),
 		raw("huge-string", `var s = "x"; for (var i = 0; i < 22; i++) { s = s + s; } throw new Error("MARK-HUGE");`, "MARK-HUGE", "fail"),
 	}
 }
@@ -136,6 +166,9 @@ func crossSpec(b behaviour, position string, settings int) *ref.ASpec {
 		a.NoAutoErrorNode = true
 	case 4:
 		a.ActionErrorNode = "missing-node"
+	}
+	if b.Ext {
+		a.Interpreter = "ecmascript-ext"
 	}
 	if position == "action" {
 		a.Nodes["start"] = &ref.ANode{Action: b.Prog, Branching: &ref.ABranching{Type: "bindings", Branches: []*ref.ABranch{{Target: "n2"}}}}
@@ -346,6 +379,9 @@ func runCross(cfg fw.Config, rec *fw.Rec, worker int, cc crossCase, b behaviour)
 	rec.Bucket("control_" + cc.Control)
 	rec.Bucket("behaviour_" + cc.Behaviour)
 	rec.Bucket("position_" + cc.Position)
+	if b.Ext {
+		rec.Bucket("extended_interpreter_helper_misused")
+	}
 	rec.Nontrivial(fw.Canon(cc))
 }
 
@@ -743,8 +779,8 @@ func oddNative(rec *fw.Rec, worker int) {
 }
 
 func Run(cfg fw.Config, rec *fw.Rec) {
-	rec.Rule = "cross product {behaviour (34: throw Error/string/object, infinite loop, recursion, loop inside try, return null/undefined/number/string/array/function/NaN/bool/Date/cyclic/function-member, _.out of unserialisable/NaN/cyclic, bindings replaced, deleting permanents ...)} x {action, guard, guard at a node whose action succeeded} x {5 error settings} x {6 states: empty, nil bindings, permanent, unknown node, unknown node + nil bindings, at error node} x {6 controls: nil, limit -1/0/1/100, breakpoint} x {4 pendings incl. a nil element} x {Step, Walk} x renderings; damaged JSON/YAML documents (45 targeted + random) loaded by encoding/json, jsccast/yaml, yaml.v2 and sio's file-URL loader, compiled, then walked; odd native results ((nil,nil), nil bindings, (nil,err), (exe,err), same map, Execution literals without Events); 53 hostile requests to a sio crew (duplicate / malformed timer requests, malformed crew operations, deleting the service machines, odd routing targets, machines without spec or state), alone and in sequence, each followed by a probe that the crew still delivers; one child process per batch, every case logged before it runs; oracle: no panic / fatal / hang, and every failure surfaced as the reference step says; non-trivial = case run to a verdict; distinct by case description"
-	rec.Required = []string{"failures_surfaced_step", "walks_checked", "state_nil-bindings", "state_unknown-node-nil-bindings", "state_permanent", "failures_surfaced_nil_bindings", "control_nil", "control_limit-1", "doc_compiled", "doc_compile_error", "doc_load_error", "native_odd_checked", "failures_surfaced_native", "host_requests_survived", "behaviour_loop", "behaviour_recursion", "behaviour_out-cyclic", "position_guard-after-action"}
+	rec.Rule = "cross product {behaviour (55: throw Error/string/object, infinite loop, recursion, loop inside try, return null/undefined/number/string/array/function/NaN/bool/Date/cyclic/function-member, _.out of unserialisable/NaN/cyclic, bindings replaced, deleting permanents, 21 wrong uses of the extended interpreter's _.match / _.cronNext / _.randstr under the standard interpreter map ...)} x {action, guard, guard at a node whose action succeeded} x {5 error settings} x {6 states: empty, nil bindings, permanent, unknown node, unknown node + nil bindings, at error node} x {6 controls: nil, limit -1/0/1/100, breakpoint} x {4 pendings incl. a nil element} x {Step, Walk} x renderings; damaged JSON/YAML documents (45 targeted + random) loaded by encoding/json, jsccast/yaml, yaml.v2 and sio's file-URL loader, compiled, then walked; odd native results ((nil,nil), nil bindings, (nil,err), (exe,err), same map, Execution literals without Events); 53 hostile requests to a sio crew (duplicate / malformed timer requests, malformed crew operations, deleting the service machines, odd routing targets, machines without spec or state), alone and in sequence, each followed by a probe that the crew still delivers; 10 scripts that build a value nested 1,000,000 levels deep and emit it, return it (action and guard), hand it to _.match (extended interpreter), or do so inside a sio crew machine, each in a process of its own: the process must survive, the action must fail and the failure be surfaced, the crew must still answer; one child process per batch, every case logged before it runs; oracle: no panic / fatal / hang, and every failure surfaced as the reference step says; non-trivial = case run to a verdict; distinct by case description"
+	rec.Required = []string{"failures_surfaced_step", "walks_checked", "state_nil-bindings", "state_unknown-node-nil-bindings", "state_permanent", "failures_surfaced_nil_bindings", "control_nil", "control_limit-1", "doc_compiled", "doc_compile_error", "doc_load_error", "native_odd_checked", "failures_surfaced_native", "host_requests_survived", "behaviour_loop", "behaviour_recursion", "behaviour_out-cyclic", "position_guard-after-action", "extended_interpreter_helper_misused", "deep_value_cases_survived", "deep_value_failures_surfaced", "deep_value_crew_still_alive"}
 	rec.Assume = []string{"native actions do not panic themselves (a Go panic in host code is the host's)", "with absent bindings an ECMAScript program's behaviour is its own; only totality is judged there", "hard watchdog 30-60 s per call; contexts carry deadlines of 40 ms (non-terminating scripts) or 2 s"}
 	bs := behaviours()
 	var cases []crossCase
@@ -861,5 +897,8 @@ func Run(cfg fw.Config, rec *fw.Rec) {
 	}
 	if cfg.Batch == 2%cfg.Batches {
 		hostParts(cfg, rec)
+	}
+	if cfg.Batch == 3%cfg.Batches {
+		deepPart(cfg, rec)
 	}
 }
